@@ -384,3 +384,31 @@ def _m23():
     def _output_str(self, name):
         return name if isinstance(name, str) else ('P', id(name))
     ns.NinjaFile._output_str = _output_str
+
+
+@mutant('uniquetrees_string_sort')
+def _m24():
+    # sorts by the suffix string instead of the component list
+    from bfg9000 import path as bpath
+
+    def uniquetrees(paths):
+        def ischild(a, b):
+            for i, j in zip(a, b):
+                if i != j:
+                    return False
+            return True
+        if not paths:
+            return []
+        paths = [(i, [i.root.value] + i.split()) for i in paths]
+        paths.sort(key=lambda i: (i[0].root.value, i[0].suffix))
+        piter = iter(paths)
+        p, last = next(piter)
+        uniques = [p]
+        for p, bits in piter:
+            if not ischild(last, bits):
+                last = bits
+                uniques.append(p)
+        return uniques
+    bpath.uniquetrees = uniquetrees
+    import vpx.harness.c12 as h
+    h.uniquetrees = uniquetrees
